@@ -246,7 +246,7 @@ fn check_wellformed(rep: &mut Report, rng: &mut Rng, pool: &[(Enr, Vec<u8>)]) {
 fn check_mutation(rep: &mut Report, rng: &mut Rng, pool: &[(Enr, Vec<u8>)]) {
     let m = gen_message(rng, pool);
     let mut bytes = m.encode();
-    let origin: &str = match rng.below(11) {
+    let origin: &str = match rng.below(12) {
         0 => {
             bytes[0] = rng.below(256) as u8;
             "mut:type-byte"
@@ -387,6 +387,29 @@ fn check_mutation(rep: &mut Report, rng: &mut Rng, pool: &[(Enr, Vec<u8>)]) {
                 }
             }
             "mut:record-bitflip"
+        }
+        10 => {
+            // an item of the record list that is a well-formed RLP list but no record: too large
+            // for a record (its own header says 301..700 bytes), or small junk
+            let size = if rng.chance(2, 3) { 301 + rng.usize(400) } else { 1 + rng.usize(80) };
+            let mut payload = Vec::new();
+            while payload.len() < size {
+                let n = 1 + rng.usize(40.min(size - payload.len()));
+                let chunk = rng.bytes(n);
+                rlp_ref::encode_bytes(&chunk, &mut payload);
+            }
+            let mut junk = Vec::new();
+            rlp_ref::encode_list_payload(&payload, &mut junk);
+            let (id, total, mut recs) = match &m {
+                RefMessage::Nodes { id, total, records } => (id.clone(), *total, records.clone()),
+                other => (other.id().to_vec(), 1, vec![rng.pick(pool).1.clone()]),
+            };
+            // keep the message within a datagram: few genuine records around the junk item
+            recs.truncate(2);
+            let at = rng.usize(recs.len() + 1);
+            recs.insert(at, junk);
+            bytes = RefMessage::Nodes { id, total, records: recs }.encode();
+            "mut:record-list-item-not-a-record"
         }
         _ => {
             let i = rng.usize(bytes.len());
